@@ -46,6 +46,18 @@ func subset(r *Rng, pool []string) []string {
 	if r.Chance(1, 8) {
 		out = append(out, "")
 	}
+	if r.Chance(1, 5) { // lists of particular lengths (around powers of two), padded with names nothing else uses, in no particular order
+		n := pick(r, []int{3, 4, 5, 7, 8, 9, 15, 16, 17, 31, 32, 33, 64, 65})
+		for k := 0; len(out) < n; k++ {
+			out = append(out, fmt.Sprintf("%s-filler-%d", pick(r, []string{"zz", "aa", "mm", "Zz", "0"}), r.Intn(1000)*100+k))
+		}
+		perm := r.Perm(len(out))
+		shuffled := make([]string, len(out))
+		for i, j := range perm {
+			shuffled[i] = out[j]
+		}
+		out = shuffled
+	}
 	return out
 }
 
